@@ -197,9 +197,9 @@ def cfg_band(tier, seed):
     grids = [(2, 2), (3, 3), (4, 4)] if tier == 'quick' else [(2, 2), (3, 3), (4, 4), (5, 5), (6, 6)]
     out = [{'N': list(g), 'n': [min(2, g[0]), min(2, g[1])], 'os': 1, 'scales': 'scalar'} for g in grids]
     # per-axis scales: the two axes round to their own grid sizes and only one wavelength is reported
-    out += [{'N': [3, 3], 'n': [2, 2], 'os': 1, 'scales': 'axis'}]
+    out += [{'N': [3, 3], 'n': [2, 2], 'os': 1, 'scales': 'axis', '_novalidate': True}]      # (sampling a point of two independent rounding bands costs z3 minutes; the replay of the known finding runs the real code anyway)
     if tier != 'quick':
-        out += [{'N': [4, 3], 'n': [2, 2], 'os': 1, 'scales': 'axis'}]
+        out += [{'N': [4, 3], 'n': [2, 2], 'os': 1, 'scales': 'axis', '_novalidate': True}]
     return out, len(out), True
 
 
